@@ -122,8 +122,12 @@ CHECKS = {
                   'under cut) + bounded runtime contracts (frame + faithfulness postconditions) on the real API',
         ref='DESIGN.md section 4 C07'),
     'C08': dict(
-        category='exploration',
-        text='Bounded, with one finite obligation: the docstring encoder repr_str_multiline is the inverse of CPython\'s '
+        category='proof',
+        text='Proof of three small fragments, the round-trip law itself is bounded. (1) the primitive-constant accessor '
+             '(_put_one_constant with code_as_constant, 26 values x 2 parents, interpreted): the text spliced denotes, for '
+             'CPython, a Constant of the same type and value as the one stored - or the put is refused with nothing written; '
+             '(2) the comment accessor flushes the parents right after its non-offsetting splice (structural); (3) finite: '
+             'the docstring encoder repr_str_multiline is the inverse of CPython\'s '
              'string-literal decoder for every Unicode code point in 3 (thorough 8) quote / backslash contexts '
              '(exhaustive) and for every string of length <= 6 (thorough 7) over {", \', backslash, newline, a, NUL, '
              'e-acute} - this is the accessor read-back law for docstrings. Everything else is bounded: replacing every '
